@@ -4,10 +4,12 @@ from ..tape import Tape, h64
 from .. import oracles as O
 
 
-def run_scn(case, key, idx, tapes):
-    """Execute case[key] with the idx-th tape of the case. Returns (run, tape)."""
+def run_scn(case, key, idx, tapes, seed_idx=None):
+    """Execute case[key] with the idx-th tape of the case. Returns (run, tape).
+    seed_idx: paired (differential) executions share the tape seed, so that device-side
+    decisions (ids, tokens, adversary, latencies) coincide and only the varied dimension differs."""
     rec = tapes[idx] if tapes and idx < len(tapes) else None
-    tape = Tape(h64(case['seed'], 'exec', idx), recorded=rec)
+    tape = Tape(h64(case['seed'], 'exec', idx if seed_idx is None else seed_idx), recorded=rec)
     run = execute(case[key], tape)
     return run, tape
 
@@ -63,3 +65,17 @@ def brief_scn(scn, run=None):
 
 def only(tags, probs):
     return [p for p in probs if p[0] in tags]
+
+
+def exc_chain(rec):
+    """Names of the raised exception and of everything in its __context__/__cause__ chain."""
+    out = []
+    e = rec.get('exc_obj')
+    seen = 0
+    while e is not None and seen < 10:
+        out.append(type(e).__name__)
+        e = e.__cause__ or e.__context__
+        seen += 1
+    if not out and rec.get('exc'):
+        out.append(rec['exc'])
+    return out
